@@ -173,6 +173,88 @@ Theorem C13_CNOT_Heralded :
 Proof. exact CNOTH_full. Qed.
 Print Assumptions C13_CNOT_Heralded.
 
+(* ---- soundness of the number-field arithmetic w.r.t. the complex numbers ----
+   per extension level: if f : K -> R is a ring homomorphism and s*s = f d, then
+   a + b sqrt d |-> f a + f b * s is one; complexification likewise *)
+Theorem C13_evaluation_generic :
+  forall (K : Type) (o : ops K) (d : K) (f : K -> R) (s : R),
+    RingHom o rops f -> (s * s = f d)%R ->
+    RingHom (qext o d) rops (ev_ext f s) /\ RingHom (cplx (qext o d)) cops (ev_cplx (ev_ext f s)).
+Proof.
+  exact (fun K o d f s H Hs => conj (ev_ext_hom o d f s H Hs)
+                                    (ev_cplx_hom (qext o d) (ev_ext f s) (ev_ext_hom o d f s H Hs))).
+Qed.
+Print Assumptions C13_evaluation_generic.
+
+(* the two towers evaluate into C by *-ring homomorphisms sending the generators to the real
+   roots sqrt 2, sqrt 3, sqrt 7, 2^(1/4) = sqrt (sqrt 2), gamma = sqrt (3/sqrt 2 - 2) *)
+Theorem C13_evaluation_towers :
+  RingHom cA cops evCA /\ RingHom cB cops evCB /\
+  (evA a_r2 = sqrt 2 /\ evA a_r3 = sqrt 3 /\ evA a_r7 = sqrt 7 /\
+   evA a_h = (/ sqrt 2)%R /\ evA a_r3i = (/ sqrt 3)%R) /\
+  (evB b_r2 = sqrt 2 /\ evB b_q = sqrt (sqrt 2) /\ evB b_g = sqrt (3 / sqrt 2 - 2) /\
+   evB b_h = (/ sqrt 2)%R /\ evB b_qi = (/ sqrt (sqrt 2))%R).
+Proof. exact (conj evCA_hom (conj evCB_hom (conj evA_values evB_values))). Qed.
+Print Assumptions C13_evaluation_towers.
+
+(* ---- the same gate statements over the complex numbers C = R*R ----
+   [gate_image ev gt] is the compiled gate with U_full evaluated entrywise (ev_cplx ev);
+   amplitudes are permanents over C; |k|^2 = re^2 + im^2 is a real number *)
+Theorem C13_CZ_complex :
+  exists gt (k : R * R), gate_CZ oA a_r2 a_r3i = Ok gt /\
+    (9 * (fst k * fst k + snd k * snd k) = 1)%R /\
+    forall b b', In b (bits 2) -> In b' (bits 2) ->
+      sim_amp rops (gate_image evA gt) (dr b) (dr b') = Ok (kmul cops k (spec_CZ cops b' b), 1).
+Proof. exact CZ_complex. Qed.
+Print Assumptions C13_CZ_complex.
+
+Theorem C13_CNOT_complex :
+  forall tq : Z, In tq [0; 1]%Z ->
+  exists gt (k : R * R), gate_CNOT oA a_h a_r2 a_r3i tq = Ok gt /\
+    (9 * (fst k * fst k + snd k * snd k) = 1)%R /\
+    forall b b', In b (bits 2) -> In b' (bits 2) ->
+      sim_amp rops (gate_image evA gt) (dr b) (dr b') = Ok (kmul cops k (spec_CNOT cops (Z.to_nat tq) b' b), 1).
+Proof. exact CNOT_complex. Qed.
+Print Assumptions C13_CNOT_complex.
+
+Theorem C13_CCZ_complex :
+  exists gt (k : R * R), gate_CCZ oA a_h a_r2 a_r3i a_r7 = Ok gt /\
+    (72 * (fst k * fst k + snd k * snd k) = 1)%R /\
+    forall b b', In b (bits 3) -> In b' (bits 3) ->
+      sim_amp rops (gate_image evA gt) (dr b) (dr b') = Ok (kmul cops k (spec_CCZ cops b' b), 1).
+Proof. exact CCZ_complex. Qed.
+Print Assumptions C13_CCZ_complex.
+
+Theorem C13_CCNOT_complex :
+  forall tq : Z, In tq [0; 1; 2]%Z ->
+  exists gt (k : R * R), gate_CCNOT oA a_h a_r2 a_r3i a_r7 tq = Ok gt /\
+    (72 * (fst k * fst k + snd k * snd k) = 1)%R /\
+    forall b b', In b (bits 3) -> In b' (bits 3) ->
+      sim_amp rops (gate_image evA gt) (dr b) (dr b') = Ok (kmul cops k (spec_CCNOT cops (Z.to_nat tq) b' b), 1).
+Proof. exact CCNOT_complex. Qed.
+Print Assumptions C13_CCNOT_complex.
+
+Theorem C13_CZ_Heralded_complex :
+  exists gt (k : R * R), gate_CZ_Heralded oB b_h b_r2 b_qi b_g = Ok gt /\
+    (16 * (fst k * fst k + snd k * snd k) = 1)%R /\
+    (forall b b', In b (bits 2) -> In b' (bits 2) ->
+       sim_amp rops (gate_image evB gt) (dr b) (dr b') = Ok (kmul cops k (spec_CZ cops b' b), 1)) /\
+    (forall b t, In b (bits 2) -> In t (zstates 4 2) -> undr t = None ->
+       exists n, sim_amp rops (gate_image evB gt) (dr b) t = Ok ((0%R, 0%R), n)).
+Proof. exact CZH_complex. Qed.
+Print Assumptions C13_CZ_Heralded_complex.
+
+Theorem C13_CNOT_Heralded_complex :
+  forall tq : Z, In tq [0; 1]%Z ->
+  exists gt (k : R * R), gate_CNOT_Heralded oB b_h b_r2 b_qi b_g tq = Ok gt /\
+    (16 * (fst k * fst k + snd k * snd k) = 1)%R /\
+    (forall b b', In b (bits 2) -> In b' (bits 2) ->
+       sim_amp rops (gate_image evB gt) (dr b) (dr b') = Ok (kmul cops k (spec_CNOT cops (Z.to_nat tq) b' b), 1)) /\
+    (forall b t, In b (bits 2) -> In t (zstates 4 2) -> undr t = None ->
+       exists n, sim_amp rops (gate_image evB gt) (dr b) t = Ok ((0%R, 0%R), n)).
+Proof. exact CNOTH_complex. Qed.
+Print Assumptions C13_CNOT_Heralded_complex.
+
 (* ---- an invalid target_qubit is refused with ValueError (every scalar type) ---- *)
 Theorem C13_invalid_target_rejected :
   forall (K : Type) (o : ops K) (h r2 r3i qi g r7 : K) (tq : Z),
